@@ -5,11 +5,17 @@
 //            op = :k <package> = setPackageName(package) | :n <group> = createFileName(group), the answer is recorded.  The ops in front of a
 //            test are made on the output object just before its printCurrentTestStarted callback (a subclass forwards the callback after
 //            making them), the trailing ones after runAllTests returned.  No op = the package is never set.
-// Observation: <nfiles> { <filename> <content> } in the order the files were opened, <nnames> { <createFileName answer> } in call order.
+//            Optional tail  :F <run-ignored> <ngroupfilters> { <pattern> <strict> <invert> } <nnamefilters> { <pattern> <strict> <invert> }
+//            = TestRegistry::setRunIgnored() / setGroupFilters / setNameFilters (TestFilter with strictMatching() / invertMatching(), chained with add()).
+//            A test that is filtered out gets no callback, so the ops in front of it are never made.  An ignored test is an IgnoredUtestShell whose
+//            createTest gives the scripted body (as IGNORE_TEST does): with -ri it runs like a plain test.
+// Observation: the file system at the end: <nfiles> { <filename> <content> } in the order of the FIRST open of each name -- opening an existing name
+//            for writing replaces its content, as fopen(name, "w") does --, <nnames> { <createFileName answer> } in call order.
 #include "CppUTest/TestHarness.h"
 #include "CppUTest/TestRegistry.h"
 #include "CppUTest/TestResult.h"
 #include "CppUTest/TestFailure.h"
+#include "CppUTest/TestFilter.h"
 #include "CppUTest/JUnitTestOutput.h"
 #include "CppUTest/PlatformSpecificFunctions.h"
 #include "hlib.h"
@@ -20,37 +26,44 @@ struct Stmt { char kind; std::string text, file; size_t line; };
 struct Op { char kind; std::string text; };
 struct TestDef { std::string group, name, file; size_t line; bool ignored; std::vector<Stmt> body; std::vector<Op> ops; };
 
-class ScriptShell : public UtestShell
-{
-public:
-    const TestDef* def;
-    ScriptShell(const TestDef* d) : UtestShell(d->group.c_str(), d->name.c_str(), d->file.c_str(), d->line), def(d) {}
-    TestResult* res() { return getTestResult(); }
-    Utest* createTest() CPPUTEST_OVERRIDE;
-};
+static TestResult* theResult = 0;
 class ScriptTest : public Utest
 {
 public:
-    ScriptShell* sh;
-    explicit ScriptTest(ScriptShell* s) : sh(s) {}
+    UtestShell* sh; const TestDef* def;
+    ScriptTest(UtestShell* s, const TestDef* d) : sh(s), def(d) {}
     void testBody() CPPUTEST_OVERRIDE
     {
-        for (const Stmt& s : sh->def->body) {
-            if (s.kind == 'p') sh->res()->print(s.text.c_str());
+        for (const Stmt& s : def->body) {
+            if (s.kind == 'p') theResult->print(s.text.c_str());
             else if (s.kind == 'f') sh->addFailure(FailFailure(sh, s.file.c_str(), s.line, s.text.c_str()));
             else sh->fail(s.text.c_str(), s.file.c_str(), s.line);
         }
     }
 };
-Utest* ScriptShell::createTest() { return new ScriptTest(this); }
+class ScriptShell : public UtestShell
+{
+public:
+    const TestDef* def;
+    ScriptShell(const TestDef* d) : UtestShell(d->group.c_str(), d->name.c_str(), d->file.c_str(), d->line), def(d) {}
+    Utest* createTest() CPPUTEST_OVERRIDE { return new ScriptTest(this, def); }
+};
 class IgnoredScriptShell : public IgnoredUtestShell
 {
 public:
-    IgnoredScriptShell(const TestDef* d) : IgnoredUtestShell(d->group.c_str(), d->name.c_str(), d->file.c_str(), d->line) {}
+    const TestDef* def;
+    IgnoredScriptShell(const TestDef* d) : IgnoredUtestShell(d->group.c_str(), d->name.c_str(), d->file.c_str(), d->line), def(d) {}
+    Utest* createTest() CPPUTEST_OVERRIDE { return new ScriptTest(this, def); }   // reached only with -ri
 };
 
-static std::vector<std::pair<std::string, std::string> > files;
-static PlatformSpecificFile myOpen(const char* name, const char*) { files.push_back(std::make_pair(std::string(name), std::string())); return (PlatformSpecificFile)(uintptr_t)files.size(); }
+static std::vector<std::pair<std::string, std::string> > files;   // the file system: name -> content, in the order of the first opens
+static PlatformSpecificFile myOpen(const char* name, const char*)
+{
+    for (size_t i = 0; i < files.size(); i++)
+        if (files[i].first == name) { files[i].second.clear(); return (PlatformSpecificFile)(uintptr_t)(i + 1); }   // "w": truncate
+    files.push_back(std::make_pair(std::string(name), std::string()));
+    return (PlatformSpecificFile)(uintptr_t)files.size();
+}
 static void myPuts(const char* s, PlatformSpecificFile f) { size_t i = (size_t)(uintptr_t)f; if (i >= 1 && i <= files.size()) files[i - 1].second += s; }
 static void myClose(PlatformSpecificFile) {}
 static unsigned long myMillis() { return 0; }
@@ -73,12 +86,12 @@ static void readOps(Toks& t, std::vector<Op>& ops)
 class OpsJUnitOutput : public JUnitTestOutput
 {
 public:
-    const std::vector<TestDef>* defs; size_t next;
-    explicit OpsJUnitOutput(const std::vector<TestDef>* d) : defs(d), next(0) {}
+    const std::vector<TestDef>* defs; const std::vector<std::unique_ptr<UtestShell> >* shells;
+    OpsJUnitOutput(const std::vector<TestDef>* d, const std::vector<std::unique_ptr<UtestShell> >* s) : defs(d), shells(s) {}
     void printCurrentTestStarted(const UtestShell& test) CPPUTEST_OVERRIDE
     {
-        if (next < defs->size()) doOps(*this, (*defs)[next].ops);
-        next++;
+        for (size_t i = 0; i < shells->size(); i++)
+            if ((*shells)[i].get() == &test) doOps(*this, (*defs)[i].ops);
         JUnitTestOutput::printCurrentTestStarted(test);
     }
 };
@@ -104,6 +117,17 @@ int main()
             }
         }
         std::vector<Op> post; readOps(t, post);
+        bool runIgnored = false;
+        struct FilterDef { std::string pat; bool strict, invert; };
+        std::vector<FilterDef> gfd, nfd;
+        if (!t.end()) {
+            std::string tag = t.sym();   // :F
+            runIgnored = t.u() != 0;
+            for (int which = 0; which < 2; which++) {
+                int m = t.n();
+                for (int k = 0; k < m; k++) { FilterDef f; t.bytes(f.pat); f.strict = t.u() != 0; f.invert = t.u() != 0; (which ? nfd : gfd).push_back(f); }
+            }
+        }
         files.clear(); names.clear();
         {
             std::vector<std::unique_ptr<UtestShell> > shells;
@@ -111,8 +135,23 @@ int main()
             for (int i = 0; i < n; i++)
                 shells.emplace_back(defs[(size_t)i].ignored ? (UtestShell*)new IgnoredScriptShell(&defs[(size_t)i]) : (UtestShell*)new ScriptShell(&defs[(size_t)i]));
             for (int i = n - 1; i >= 0; i--) reg.addTest(shells[(size_t)i].get());
-            OpsJUnitOutput out(&defs);
+            // the filter lists as the command line builds them: each new filter is put in front (new TestFilter(..)->add(old))
+            std::vector<std::unique_ptr<TestFilter> > keep;
+            TestFilter* heads[2] = { 0, 0 };
+            for (int which = 0; which < 2; which++)
+                for (const FilterDef& f : (which ? nfd : gfd)) {
+                    TestFilter* nf = new TestFilter(f.pat.c_str());
+                    if (f.strict) nf->strictMatching();
+                    if (f.invert) nf->invertMatching();
+                    keep.emplace_back(nf);
+                    heads[which] = nf->add(heads[which]);
+                }
+            if (heads[0]) reg.setGroupFilters(heads[0]);
+            if (heads[1]) reg.setNameFilters(heads[1]);
+            if (runIgnored) reg.setRunIgnored();
+            OpsJUnitOutput out(&defs, &shells);
             TestResult result(out);
+            theResult = &result;
             reg.runAllTests(result);
             doOps(out, post);
         }
